@@ -11,7 +11,7 @@ Local Open Scope N_scope.
 Definition app_op (o : op) : bool :=
   match o with
   | OWrite _ _ | OTruncate _ | OCommitJournal _ | OInvalidateJournal | OWalHeader | OWalTruncate
-  | OCommitWal _ _ | OCheckpoint | ODrop | OImport _ _ _ => true
+  | OCommitWal _ _ | OCheckpoint | ODrop | OImport _ _ _ | OCommitJournalFail _ => true
   | OOpen | OSetWriteable _ | OReceive _ | ORetention _ _ _ => false
   end.
 (* those among them that would change the replicated database if they went through *)
